@@ -38,6 +38,29 @@ pub struct Case {
     pub fea: Option<String>,
     /// surface variation: write the dictionaries' entries in this rotated order
     pub rot: usize,
+    /// which DataRequest the tree is loaded with (index into REQUESTS)
+    pub req: usize,
+}
+
+/// (name, lib requested, features.fea requested)
+pub const REQUESTS: [(&str, bool, bool); 6] = [
+    ("all()", true, true),
+    ("all().lib(false)", false, true),
+    ("none()", false, false),
+    ("none().lib(true)", true, false),
+    ("all().features(false)", true, false),
+    ("all().kerning(false).groups(false)", true, true),
+];
+fn data_request(i: usize) -> norad::DataRequest<'static> {
+    use norad::DataRequest as R;
+    match i {
+        1 => R::all().lib(false),
+        2 => R::none(),
+        3 => R::none().lib(true),
+        4 => R::all().features(false),
+        5 => R::all().kerning(false).groups(false),
+        _ => R::all(),
+    }
 }
 
 pub fn tm_i(z: i128) -> Tm {
@@ -126,7 +149,9 @@ fn g_dict(d: &[(String, P)]) -> String {
 }
 fn g_case(c: &Case) -> String {
     format!(
-        "(mk {} {} {} {})",
+        "(rq {} {}, mk {} {} {} {})",
+        g_bool(REQUESTS[c.req].1),
+        g_bool(REQUESTS[c.req].2),
         c.version,
         g_opt(c.fontinfo.as_ref().map(|d| g_dict(d))),
         g_opt(c.lib.as_ref().map(|d| g_dict(d))),
@@ -172,6 +197,7 @@ fn dict_j(j: &J) -> Vec<(String, P)> {
 fn j_case(c: &Case) -> J {
     json!({
         "label": c.label, "version": c.version, "rot": c.rot,
+        "request": c.req, "request_name": REQUESTS[c.req].0,
         "fontinfo": c.fontinfo.as_ref().map(|d| j_p(&P::Dict(d.clone()))),
         "lib": c.lib.as_ref().map(|d| j_p(&P::Dict(d.clone()))),
         "features_fea": c.fea,
@@ -186,6 +212,7 @@ fn case_j(j: &J) -> Case {
         label: j["label"].as_str().unwrap_or("").to_string(),
         version: j["version"].as_u64().unwrap() as u8,
         rot: j.get("rot").and_then(|r| r.as_u64()).unwrap_or(0) as usize,
+        req: (j.get("request").and_then(|r| r.as_u64()).unwrap_or(0) as usize).min(REQUESTS.len() - 1),
         fontinfo: d("fontinfo"),
         lib: d("lib"),
         fea: j.get("features_fea").and_then(|s| s.as_str()).map(|s| s.to_string()),
@@ -305,7 +332,12 @@ fn has_nan(i: &norad::FontInfo) -> bool {
 
 pub fn observe(dir: &Path, c: &Case) -> Obs {
     write_ufo(dir, c);
-    let r = catch(|| Font::load(dir));
+    // Font::load is load_requested_data(DataRequest::all()); exercise the entry point itself
+    let r = if c.req == 0 {
+        catch(|| Font::load(dir))
+    } else {
+        catch(|| Font::load_requested_data(dir, data_request(c.req)))
+    };
     let mut o = Obs { tm: Tm::L(vec![]), loaded: false, panic: None, error: None, oracle: vec![], info_keys: vec![] };
     match r {
         Err(msg) => {
@@ -479,7 +511,7 @@ fn special_ints() -> Vec<i128> {
 }
 
 fn case(label: &str, version: u8, fi: Option<Vec<(String, P)>>, lib: Option<Vec<(String, P)>>, fea: Option<&str>) -> Case {
-    Case { label: label.to_string(), version, fontinfo: fi, lib, fea: fea.map(|s| s.to_string()), rot: 0 }
+    Case { label: label.to_string(), version, fontinfo: fi, lib, fea: fea.map(|s| s.to_string()), rot: 0, req: 0 }
 }
 
 fn schema_of(s: &Schema, v: u8) -> &Vec<(String, String)> {
@@ -595,7 +627,7 @@ fn feature_lib(r: &mut Rng) -> Vec<(String, P)> {
 
 fn other_lib_entries(r: &mut Rng) -> Vec<(String, P)> {
     let mut v = vec![];
-    let names = ["com.example.foo", "public.glyphOrder", "org.robofab.other", "org.robofab.opentype.featureorderX", "z", "A"];
+    let names = ["com.example.foo", "public.glyphOrder", "org.robofab.other", "org.robofab.opentype.featureorderX", "z", "A", "public.objectLibs"];
     for n in names.iter() {
         if r.chance(1, 3) {
             v.push((n.to_string(), rand_plist(r, 2)));
@@ -887,6 +919,23 @@ pub fn gen_cases(s: &Schema, seed: u64, thorough: bool) -> Vec<Case> {
         }
     }
 
+    // the request dimension: the conversion must not depend on what the caller asked for. Every
+    // tree with a lib.plist is also loaded under each non-default request, every third other
+    // tree under one of them in rotation.
+    let base = cs.len();
+    for i in 0..base {
+        if cs[i].lib.is_some() {
+            for q in 1..REQUESTS.len() {
+                let mut c = cs[i].clone();
+                c.req = q;
+                cs.push(c);
+            }
+        } else if (i + seed as usize) % 3 == 0 {
+            let mut c = cs[i].clone();
+            c.req = 1 + (i / 3 + seed as usize) % (REQUESTS.len() - 1);
+            cs.push(c);
+        }
+    }
     // surface variation: rotate the order in which the dictionaries are written
     for (i, c) in cs.iter_mut().enumerate() {
         let n = c.fontinfo.as_ref().map(|d| d.len()).unwrap_or(0).max(c.lib.as_ref().map(|d| d.len()).unwrap_or(0));
@@ -926,6 +975,7 @@ fn run_cases(a: &Args, cases: Vec<Case>) {
     let mut jl = String::new();
     let mut dist: BTreeMap<String, u64> = BTreeMap::new();
     let mut outcome: BTreeMap<String, u64> = BTreeMap::new();
+    let mut by_request: BTreeMap<String, u64> = BTreeMap::new();
     let mut keys_seen: BTreeMap<String, u64> = BTreeMap::new();
     for (i, c) in cases.iter().enumerate() {
         let dir = work.join(format!("c{}.ufo", i));
@@ -945,6 +995,7 @@ fn run_cases(a: &Args, cases: Vec<Case>) {
         lines.push_str(&format!("({}, {})\n", g_case(c), tm.to_string()));
         let kind = c.label.split(':').next().unwrap().to_string();
         *dist.entry(kind).or_insert(0) += 1;
+        *by_request.entry(REQUESTS[c.req].0.to_string()).or_insert(0) += 1;
         let oc = if o.loaded { "loaded" } else if o.panic.is_some() { "panic" } else { "error" };
         *outcome.entry(oc.to_string()).or_insert(0) += 1;
         for k in &o.info_keys {
@@ -964,7 +1015,7 @@ fn run_cases(a: &Args, cases: Vec<Case>) {
     write_file(&a.out.join("cases.txt"), &lines);
     write_file(&a.out.join("cases.jsonl"), &jl);
     let summary = json!({
-        "cases": cases.len(), "by_kind": dist, "by_outcome": outcome,
+        "cases": cases.len(), "by_kind": dist, "by_outcome": outcome, "by_request": by_request,
         "format3_attributes_observed_set": keys_seen.len(), "attribute_hits": keys_seen,
     });
     write_file(&a.out.join("summary.json"), &summary.to_string());
